@@ -71,6 +71,18 @@ func LoadProgram(dir string, tags string) (*Program, error) {
 				p.ByKey[name+"."+mm.Name()] = mm
 				p.addAnon(name, mm)
 			case *ssa.Type:
+				if named, ok := types.Unalias(mm.Type()).(*types.Named); ok {
+					// methods of (possibly generic) named types, by declaration
+					for j := 0; j < named.NumMethods(); j++ {
+						if fn := prog.FuncValue(named.Method(j)); fn != nil && fn.Synthetic == "" {
+							key := name + "." + funcKey(fn)
+							if _, ok := p.ByKey[key]; !ok {
+								p.ByKey[key] = fn
+								p.addAnon(name, fn)
+							}
+						}
+					}
+				}
 				for _, t := range []types.Type{mm.Type(), types.NewPointer(mm.Type())} {
 					ms := prog.MethodSets.MethodSet(t)
 					for j := 0; j < ms.Len(); j++ {
@@ -204,4 +216,17 @@ func (p *Program) implementers(pkg *types.Package, iface *types.Interface) []typ
 		}
 	}
 	return out
+}
+
+// fnPkg: the types.Package a function (possibly an instance of a generic, or a closure) belongs to.
+func fnPkg(fn *ssa.Function) *types.Package {
+	for f := fn; f != nil; f = f.Parent() {
+		if f.Pkg != nil {
+			return f.Pkg.Pkg
+		}
+		if f.Origin() != nil && f.Origin().Pkg != nil {
+			return f.Origin().Pkg.Pkg
+		}
+	}
+	return nil
 }
